@@ -27,6 +27,7 @@ func (i *Interpreter) resolveIncludeStatement(statements []ast.Statement, isRoot
 				return nil, exception.Runtime(&stmt.GetMeta().Token, "%s", err.Error())
 			}
 			recursive, err := i.resolveIncludeStatement(included, isRoot)
+			i.includeChain = i.includeChain[:len(i.includeChain)-1] // pushed by includeFile
 			if err != nil {
 				return nil, err
 			}
@@ -62,10 +63,28 @@ func (i *Interpreter) includeFile(include *ast.IncludeStatement, isRoot bool) ([
 		return nil, fmt.Errorf("failed to include VCL module '%s'", include.Module.Value)
 	}
 
-	if isRoot {
-		return loadRootVCL(module.Name, module.Data)
+	// A module that includes itself, directly or through other modules, would be resolved forever
+	for _, name := range i.includeChain {
+		if name == module.Name {
+			return nil, fmt.Errorf(
+				"circular include of VCL module '%s': %s -> %s",
+				include.Module.Value, strings.Join(i.includeChain, " -> "), module.Name,
+			)
+		}
 	}
-	return loadStatementVCL(module.Name, module.Data)
+
+	var statements []ast.Statement
+	if isRoot {
+		statements, err = loadRootVCL(module.Name, module.Data)
+	} else {
+		statements, err = loadStatementVCL(module.Name, module.Data)
+	}
+	if err != nil {
+		return nil, err
+	}
+	// popped by the caller once the module's own include statements are resolved
+	i.includeChain = append(i.includeChain, module.Name)
+	return statements, nil
 }
 
 func loadRootVCL(name, content string) ([]ast.Statement, error) {
